@@ -521,10 +521,12 @@ def k2_xlsx_sheet(ctx):
         # header row of plain texts (or typed, when the probe sits there), one typed probe cell
         pos = ctx.choice("probe_cell", r * c)
         tv = XLSX_TYPED[ctx.choice("typed_value", len(XLSX_TYPED))]
+        # the typed value may also fill a whole trailing row or column (a totals row of zeros ...)
+        fill = ctx.choice("typed_fill", 3)      # 0: single cell, 1: last row, 2: last column
         for i in range(r):
             row, krow = [], []
             for j in range(c):
-                if i * c + j == pos:
+                if i * c + j == pos or (fill == 1 and i == r - 1 and r > 1) or (fill == 2 and j == c - 1 and i > 0):
                     row.append(tv)
                     krow.append("typed")
                 else:
